@@ -324,7 +324,12 @@ INPLACE = ("normalize", "arrange", "arrange_perm", "redistribute", "fixsigns", "
 ALPHA = ["normalize", "normalize_abs", "normalize_mode", "arrange", "arrange_perm", "redistribute", "fixsigns", "neg", "mul",
          "add", "sub", "extract", "permute", "copy", "vec", "update", "setlay"]
 TERMINAL = ["tolist", "tolist_mode", "symmetrize", "score", "fixsigns_other"]
-LAYS = ["F", "C", "V"]
+# memory layouts of a factor matrix the user (or an earlier operation) left in K.factor_matrices[n]:
+#   F  F-contiguous (what the constructor stores)        C  C-contiguous                 M  the result of `A @ eye(R)` — how
+#   normalize(weight_factor=k|'all') leaves a factor (numpy returns a C-contiguous matmul result)
+#   V  non-contiguous view (every other row / column of a larger C array)      S  the same of a larger F-ordered array
+#   T  transpose of a C-contiguous (R x m) array: F-contiguous but a view of a base        N  negative strides on both axes
+LAYS = ["F", "C", "V", "M", "S", "T", "N"]
 
 
 def rand_lay(rng, N):
@@ -409,7 +414,7 @@ def rand_step(rng, c08, name, shape, R):
         n = sum((R if k == -1 else shape[k] * R) for k in modes)
         return {"op": "update", "modes": modes, "data": [rng.randint(-4, 4) for _ in range(n)]}
     if name == "setlay":
-        return {"op": "setlay", "n": rng.randrange(N), "lay": rng.choice(["C", "V", "F"])}
+        return {"op": "setlay", "n": rng.randrange(N), "lay": rng.choice(LAYS)}
     if name == "tolist":
         return {"op": "tolist", "mode": None}
     if name == "tolist_mode":
@@ -524,6 +529,8 @@ def build_history(rng, c08, shape, R, kind, names):
     if len(steps) < 2:
         return None
     args = {"w": w, "f": f, "lay": rand_lay(rng, len(shape)), "steps": steps, "kind": kind}
+    if rng.random() < 0.15:
+        args["ctor"] = rng.choice(["copy", "nocopy"])
     if sc:
         args["sc"] = sc
     return Case("hist", args, True)
@@ -585,6 +592,16 @@ def as_layout(np, a, lay):
     a = np.array(a, dtype=float)
     if lay == "C":
         return np.ascontiguousarray(a)
+    if lay == "M":
+        return np.ascontiguousarray(a) @ np.eye(a.shape[1])
+    if lay == "S":
+        base = np.full((2 * a.shape[0] + 1, 2 * a.shape[1] + 1), 7.5, order="F")
+        base[1::2, 1::2] = a
+        return base[1::2, 1::2]
+    if lay == "T":
+        return np.ascontiguousarray(a.T).T
+    if lay == "N":
+        return np.ascontiguousarray(a[::-1, ::-1])[::-1, ::-1]
     if lay == "V":
         base = np.full((2 * a.shape[0] + 1, 2 * a.shape[1] + 1), 7.5)
         base[1::2, 1::2] = a
@@ -592,9 +609,18 @@ def as_layout(np, a, lay):
     return np.asfortranarray(a)
 
 
-def mk_k(ttb, np, w, f, lay=None):
+def mk_k(ttb, np, w, f, lay=None, ctor=None):
+    """ctor: None = F-contiguous arrays through the constructor, then the layouts `lay` ASSIGNED to K.factor_matrices[n];
+    'copy' / 'nocopy' = the arrays in layout `lay` handed to the constructor itself (copy=True / copy=False)"""
     R = len(w)
     fm = [np.array(A, dtype=float).reshape((len(A), R)) for A in f]
+    if ctor is not None and lay is not None:
+        import logging
+        logging.disable(logging.WARNING)
+        try:
+            return ttb.ktensor([as_layout(np, a, l) for a, l in zip(fm, lay)], np.array(w, dtype=float), copy=(ctor == "copy"))
+        finally:
+            logging.disable(logging.NOTSET)
     K = ttb.ktensor([np.asfortranarray(a.copy()) for a in fm], np.array(w, dtype=float), copy=True)
     if lay is not None:
         for n, l in enumerate(lay):
@@ -609,7 +635,7 @@ def run_hist(c):
     a = c.args
     out = []
     try:
-        K = mk_k(ttb, np, *eff(a), a["lay"])
+        K = mk_k(ttb, np, *eff(a), a["lay"], a.get("ctor"))
         frozen = []                        # (label, object, snapshot) of everything later steps must not touch
 
         def freeze(label, obj):
@@ -789,7 +815,7 @@ def coq_hist(c, o):
             checks += [f"qk_close ({nxt}) O", f"qk_den_close {shp} {P} O"] + nf_clauses(s)
         elif op == "fixsigns":
             nxt = f"qk_fixsigns {P}"
-            checks += [f"qk_close ({nxt}) O", f"qk_den_close {shp} {P} O"]
+            checks += [f"qk_close (qk_py_fixsigns {P}) O", f"qk_eqb (qk_py_fixsigns {P}) ({nxt})", f"qk_den_close {shp} {P} O"]
         elif op == "setlay":
             nxt = P
             checks.append(f"qk_close {P} O")
